@@ -114,6 +114,7 @@ def chk_case(inp, c):
         c.cell("rank1")
     else:
         B = b[None]
+    del c.events[:]          # only the events of the judged call (re-registration clauses make earlier calls)
     raised = None
     with warnings.catch_warnings(record=True) as wl:
         warnings.simplefilter("always")
@@ -125,6 +126,8 @@ def chk_case(inp, c):
                 c.fail(f"range_of_solutions raised LinAlgError: {str(e.exc)[:80]}",
                        mechanism="raise:LinAlgError:" + ("spaced" if nsp is not None else "range"))
     warned = any("outside" in str(w.message) for w in wl)
+    bad_status = sorted({str(f.get("status")) for kk, f in c.events if kk == "solve.status"} - {"optimal", "optimal_inaccurate", "None"})
+    sfx = ("@" + bad_status[0]) if bad_status else ""      # best-fit fallback solved by the default QP solver
     ncand = [f for kk, f in c.events if kk == "range.candidates"]
 
     inside, outside = dep >= 1e-9, dep <= -1e-6
@@ -161,15 +164,15 @@ def chk_case(inp, c):
     if outside:
         # best fit as both ends
         c.require(np.allclose(xmin, xmax, rtol=0, atol=1e-12), "out-of-gamut: both ends are the same best fit",
-                  mechanism="outgamut-ends-differ")
+                  mechanism="outgamut-ends-differ" + sfx)
         xo, eo = oracles.bvls(Mt, c0, lbv, ubv, b)
         if xo is None:
             c.inconclusive("BVLS failed")
         e = oracles.werr(Mt, c0, xmin, b)
         c.require(e - eo <= 2e-2, "out-of-gamut: the returned point is a best fit (within 2e-2 capture units)",
-                  mechanism="outgamut-not-bestfit", err=e, err_opt=eo)
+                  mechanism="outgamut-not-bestfit" + sfx, err=e, err_opt=eo)
         c.require(np.all(xmin >= lbv - 0.01 * rngx) and np.all(xmin <= ubv + 0.01 * rngx), "best fit within bounds",
-                  mechanism="outgamut-bounds")
+                  mechanism="outgamut-bounds" + sfx)
         if xs is not None:
             xs = np.asarray(xs, float)
             c.require(xs.ndim == 2 and xs.shape[1] == n and np.allclose(xs, xmin[None], atol=1e-12),
@@ -186,9 +189,9 @@ def chk_case(inp, c):
         xo, eo = oracles.bvls(Mt, c0, lbv, ubv, b)
         e = oracles.werr(Mt, c0, xmin, b)
         c.require(xo is not None and e - eo <= 2e-2, "band target answered with a best fit (within 2e-2 capture units)",
-                  mechanism="band-not-bestfit", err=e, err_opt=eo)
+                  mechanism="band-not-bestfit" + sfx, err=e, err_opt=eo)
         c.require(np.all(xmin >= lbv - 0.01 * rngx) and np.all(xmin <= ubv + 0.01 * rngx), "best fit within bounds",
-                  mechanism="band-bestfit-bounds")
+                  mechanism="band-bestfit-bounds" + sfx)
         c.nontrivial()
         c.note("band_bestfit", {"depth_rel": dep, "err": e})
         return
